@@ -755,9 +755,85 @@ def work(item):
     return d
 
 
+# schema-level `extends` CHAINS (a base that itself extends a base): the key type / datatype a
+# middle schema merely inherits must reach the top schema exactly as if it had been written there
+CHAINS = [
+    # (files, top, expanded single document, texts)
+    ({"base.xml": '<schema keytype="identifier"><key name="Port" datatype="integer"/></schema>',
+      "mid.xml": '<schema extends="base.xml"><key name="HostName"/></schema>',
+      "top.xml": '<schema extends="mid.xml"><key name="Extra"/></schema>'},
+     "top.xml",
+     '<schema keytype="identifier"><key name="Port" datatype="integer"/><key name="HostName"/><key name="Extra"/></schema>',
+     ["Port 1\nHostName h\nExtra e\n", "port 1\n", "Port 1\n", "hostname h\n", "Extra x\nExtra y\n", ""]),
+    ({"base.xml": '<schema keytype="identifier"><key name="Port" datatype="integer"/></schema>',
+      "mid.xml": '<schema extends="base.xml"><key name="HostName"/></schema>',
+      "other.xml": '<schema keytype="identifier"><key name="Other"/></schema>',
+      "top.xml": '<schema extends="mid.xml other.xml"><key name="Extra"/></schema>'},
+     "top.xml",
+     '<schema keytype="identifier"><key name="Port" datatype="integer"/><key name="HostName"/><key name="Other"/>'
+     '<key name="Extra"/></schema>',
+     ["Port 1\nOther o\n", "other o\n", "Extra e\nHostName h\n"]),
+    ({"b0.xml": '<schema keytype="ipaddr-or-hostname"><key name="+" attribute="hosts"/></schema>',
+      "b1.xml": '<schema extends="b0.xml"></schema>',
+      "b2.xml": '<schema extends="b1.xml"></schema>',
+      "top.xml": '<schema extends="b2.xml"><key name="xx"/></schema>'},
+     "top.xml",
+     '<schema keytype="ipaddr-or-hostname"><key name="+" attribute="hosts"/><key name="xx"/></schema>',
+     ["A.Example.COM v\n", "a.example.com v\nA.Example.Com w\n", "not_a_host! v\n", "xx 1\n"]),
+]
+
+
+def chains(col):
+    ZConfig = use_repo()
+    root = tempfile.mkdtemp(prefix="c11c-")
+    try:
+        for n, (files, top, expanded, texts) in enumerate(CHAINS):
+            sub = os.path.join(root, "c%d" % n)
+            os.makedirs(sub)
+            for name, xml in files.items():
+                with open(os.path.join(sub, name), "w", encoding="utf-8") as f:
+                    f.write(xml)
+
+            def load(which):
+                try:
+                    if which == "composed":
+                        return ("ok", ZConfig.loadSchema(os.path.join(sub, top)))
+                    return ("ok", ZConfig.loadSchemaFile(io.StringIO(expanded)))
+                except ZConfig.ConfigurationError as e:
+                    return ("rejected", type(e).__name__ + ": " + str(e)[:120])
+            a, b = load("composed"), load("expanded")
+            col.case(("chain", n, "schema"))
+            inp = {"files": files, "top": top, "expanded": expanded}
+            if a[0] != b[0]:
+                col.violation("C11:extends-chain-schema-outcome-differs",
+                              "a chain of schema-level extends is accepted / rejected differently from the single "
+                              "merged document", inp, list(b) if b[0] != "ok" else ["ok"], list(a) if a[0] != "ok" else ["ok"])
+                continue
+            if a[0] != "ok":
+                continue
+            for text in texts:
+                col.case(("chain", n, text))
+
+                def outcome(schema):
+                    try:
+                        cfg, _ = ZConfig.loadConfigFile(schema, io.StringIO(text))
+                    except ZConfig.ConfigurationError as e:
+                        return ["rejected", type(e).__name__]
+                    return ["ok", sorted((k, repr(getattr(cfg, k))) for k in cfg.getSectionAttributes())]
+                oa, ob = outcome(a[1]), outcome(b[1])
+                if oa != ob:
+                    col.violation("C11:extends-chain-differs-from-merged-document",
+                                  "a text loads differently against a chain of schema-level extends and against the "
+                                  "single merged document (inherited key type / datatype lost on the way?)",
+                                  dict(inp, text=text), ob, oa)
+    finally:
+        shutil.rmtree(root, ignore_errors=True)
+
+
 def run(tier, seed):
     use_repo()
     col = Collector()
+    chains(col)
     nscn = 12000 if tier == "thorough" else 1600
     ntexts = 60 if tier == "thorough" else 40
     tmp = tempfile.mkdtemp(prefix="c11_")
@@ -792,7 +868,8 @@ def run(tier, seed):
         for i in range(3):
             stats[i] += p["stats"][i]
     res = col.result(
-        bound="%d scenarios (3 component packages in a diamond import graph,"
+        bound="3 directed chains of schema-level extends (depth 2-3, inherited key type) against the merged document; "
+              "%d scenarios (3 component packages in a diamond import graph,"
               " 0..3 base schemas, one main schema; <=2 abstract types, <=3"
               " types per document, extends chains <=3 also across"
               " documents, <=5 items per container, nesting depth <=3,"
